@@ -139,6 +139,10 @@ pub(crate) mod verif_common {
         r
     }
     pub fn b_store(_a: &AtomicBool, v: bool, o: Ordering) { push(E { loc: 3, kind: 6, arg: v as usize, ret: 0, ord: oc(o) }); }
+    // any read-modify-write on the flag: a (havoc'd) load followed by the store of the resulting value
+    pub fn b_swap(a: &AtomicBool, v: bool, o: Ordering) -> bool { let r = b_load(a, o); b_store(a, v, o); r }
+    pub fn b_for(a: &AtomicBool, v: bool, o: Ordering) -> bool { let r = b_load(a, o); b_store(a, r || v, o); r }
+    pub fn b_fand(a: &AtomicBool, v: bool, o: Ordering) -> bool { let r = b_load(a, o); b_store(a, r && v, o); r }
 
     // ---- std-level view of a known-size operation: which atomic operations did it perform on its counter? ----
     // class: 0 = pull reserving n positions, 1 = query (try_get_len / has_more / into_seq_iter), 2 = skip_to_end
